@@ -25,6 +25,7 @@ macro "letter_rel" : tactic => `(tactic| (
       try split at hn
       all_goals first
         | (rename_i hcnd; have hh := hns _ _ hcnd.1; simp [hh] at hcnd; done)
+        | (rename_i hcnd; have hh := hns _ _ hcnd.1.1; simp [hh] at hcnd; done)
         | (simp at hn; subst hn
            first | simp [stepSeg, ← hi, h1, h0 hidx, add_comm] | simp [stepSeg, ← hi, h1, add_comm, sub_eq_add_neg, add_assoc, add_left_comm])))))
 
